@@ -57,9 +57,8 @@ def make_jobs(tier, seed, build, grammars=None):
     nmax = 3 if tier == "quick" else 4
     for gname in (grammars or GRAMMARS):
         g = CORPUS[gname]
-        for n in range(0, nmax + 1):
-            for shape in tok.all_shapes(n, g.decl):
-                jobs.append({"id": "%s:%s" % (gname, ",".join(shape)), "grammar": gname, "shape": shape, "fs": "none"})
+        for shape in tok.all_shapes_by_words(nmax, g.decl):
+            jobs.append({"id": "%s:%s" % (gname, ",".join(shape)), "grammar": gname, "shape": shape, "fs": "none"})
     if grammars is None:
         for gname in CORPUS:
             jobs.append({"id": "shorts:%s" % gname, "kind": "shorts", "grammar": gname, "shape": ()})
@@ -121,4 +120,4 @@ def finish(results, jobs, build, out, tier, seed, wall):
     from .tokdiff import finish_tok
     nmax = 3 if tier == "quick" else 4
     return finish_tok(PROP, results, jobs, build, out, tier, seed, wall, Oracle(), CORPUS,
-                      {"items": "0..=%d" % nmax, "grammars": len(CORPUS), "step_budget_per_path": 600000})
+                      {"argv_words": "0..=%d (each word tokenizes to 1 or 2 items, so up to %d items)" % (nmax, 2 * nmax), "grammars": len(GRAMMARS), "step_budget_per_path": 600000})
